@@ -41,7 +41,8 @@ func init() {
 	register(&CheckDef{ID: "C12", Gen: genC12, Oracle: oracleC12, SweepBase: sweepBaseC12, SweepKinds: sweepKindsC12})
 }
 
-// C20 has two slices: damaged stored records (clustersim) and damaged downloads (netsim).
+// C20 has four slices: damaged stored records (clustersim), damaged downloads (netsim), charts damaged on disk,
+// and self-referential templates.
 func genC20all(seed, index uint64, tier string) *Plan {
 	if index%4 == 3 {
 		return genC20b(NewGen(seed, index, 120), seed, index)
@@ -49,12 +50,18 @@ func genC20all(seed, index uint64, tier string) *Plan {
 	if index%16 == 6 {
 		return genC20c(NewGen(seed, index, 220), seed, index)
 	}
+	if index%4 == 1 {
+		return genC20d(NewGen(seed, index, 320), seed, index)
+	}
 	return genC20(seed, index, tier)
 }
 
 func execC20(t *testing.T, p *Plan) *RunResult {
 	if p.Net != nil {
 		return ExecuteC20b(t, p)
+	}
+	if p.Disk != nil {
+		return ExecuteC20d(t, p)
 	}
 	if p.Render != nil {
 		return ExecuteC20c(t, p)
